@@ -13,7 +13,7 @@
    transport with the same id). *)
 From Coq Require Import List ZArith Bool.
 Import ListNotations.
-From Goat Require Import Model.Client Model.Server Model.Sys Proofs.SysLog Proofs.SysProofs Proofs.SysFacts Proofs.SysC01 Proofs.SysC01b.
+From Goat Require Import Model.Client Model.Server Model.Sys Proofs.SysLog Proofs.SysProofs Proofs.SysFacts Proofs.SysC01 Proofs.SysC01b Proofs.SysC01c.
 Open Scope Z_scope.
 
 (* every run of the system is a run of the client model and a run of the server model *)
@@ -81,6 +81,12 @@ Theorem C01_no_fabrication : forall f ls s h id m p md, Sys.lrun (pol_c01 f) Sys
               (forall c' k', nth_error (calls (cl s)) c' = Some k' -> k_id k' = id -> c' = c).
 Proof. exact SysC01b.C01_no_fabrication. Qed.
 Print Assumptions C01_no_fabrication.
+
+(* never two: the client's log holds at most one result per call, whatever the peer and the wires do *)
+Theorem C01_never_two : forall pol ls s c, Sys.lrun pol Sys.init ls = Some s ->
+  (ret_count c (Client.log (cl s)) <= 1)%nat.
+Proof. intros pol ls s c H. exact (ret_at_most_once _ _ c (proj_c_run _ _ _ _ H)). Qed.
+Print Assumptions C01_never_two.
 
 (* the hypotheses are met by concrete, non-trivial runs: three calls one after the other, and three calls
    in flight at once; each returns mix3 of its own payload, and the final state is quiescent *)
